@@ -256,6 +256,13 @@ def py_prop(inp, out):
     return None
 
 
+def known(inp, out):
+    # F23: the 1-based atom index 0 of a block interaction is read as the last atom (Python's negative index)
+    if inp['kind'] == 'fault' and inp['fault'] == 'index_zero' and 'loaded without an error' in (out.get('msg') or ''):
+        return 'F23'
+    return None
+
+
 def nontrivial(inp, out):
     k = inp['kind']
     if k == 'tok':
@@ -281,6 +288,7 @@ def describe(inp, out):
     if inp['kind'] == 'ff':
         d['ff_items'] = len(inp['ff']['items'])
         d['ff_kinds'] = ''.join(sorted({it['kind'][0] for it in inp['ff']['items']}))
+        d['ff_removal_sections'] = ','.join(sorted({'!' + x['type'] for it in inp['ff']['items'] if it['kind'] == 'link' for x in it['inters'] if x['remove']})) or '-'
     return d
 
 
